@@ -27,6 +27,7 @@ class Violation(Exception):
         self.detail = detail or {}
 
 
+ARITY_CAP = 5000
 REACH_GRID = ((0.5, 0.05, 0.95), None)   # default answers of random.random(): reachability only
 
 
@@ -163,6 +164,12 @@ def explore(driver, on_leaf=None, bound=None, root=(), float_policy=None, max_ex
             if bound is not None and dev + cost > bound:
                 continue
             head = base[:i]
+            if arity > ARITY_CAP:       # not enumerable (e.g. randrange(2**32)): a few representatives only
+                st.truncated = True
+                for alt in (arity - 1, arity // 2, 1, 0):
+                    if alt != c:
+                        stack.append(head + (alt,))
+                continue
             for alt in range(arity - 1, -1, -1):
                 if alt == c:
                     continue
